@@ -207,20 +207,35 @@ fn scoping_programs(ctx: &Ctx) -> Vec<Vec<S>> {
     };
     let mut out: Vec<Vec<S>> = Vec::new();
     let seed = vec![set("x", i(0)), set("y", i(0)), S::MixinDef("c".into(), noparams(), vec![S::Content(vec![])])];
-    let maxlen = ctx.pick(2, 2);
-    // bodies: sequences of <= maxlen simple statements, plus one nested frame before/after a statement
+    // bodies: sequences of <= 2 (thorough 3) simple statements; one nested frame holding <= 2 statements
+    // before / after a statement (thorough: also between two statements)
     let mut bodies: Vec<Vec<(Option<&str>, Vec<S>)>> = Vec::new(); // list of items: (frame kind or None, stmts)
+    let mut inner_bodies: Vec<Vec<S>> = Vec::new();
+    for c in &stm {
+        inner_bodies.push(vec![c.clone()]);
+        for d in &stm {
+            inner_bodies.push(vec![c.clone(), d.clone()]);
+        }
+    }
     for a in &stm {
         bodies.push(vec![(None, vec![a.clone()])]);
-        if maxlen >= 2 {
-            for c in &stm {
-                bodies.push(vec![(None, vec![a.clone()]), (None, vec![c.clone()])]);
+        for c in &stm {
+            bodies.push(vec![(None, vec![a.clone()]), (None, vec![c.clone()])]);
+            if ctx.thorough() {
+                for d in &stm {
+                    bodies.push(vec![(None, vec![a.clone()]), (None, vec![c.clone()]), (None, vec![d.clone()])]);
+                }
             }
         }
         for f in frames {
-            for c in &stm {
-                bodies.push(vec![(None, vec![a.clone()]), (Some(f), vec![c.clone()])]);
-                bodies.push(vec![(Some(f), vec![c.clone()]), (None, vec![a.clone()])]);
+            for ib in &inner_bodies {
+                bodies.push(vec![(None, vec![a.clone()]), (Some(f), ib.clone())]);
+                bodies.push(vec![(Some(f), ib.clone()), (None, vec![a.clone()])]);
+                if ctx.thorough() && ib.len() == 1 {
+                    for d in &stm {
+                        bodies.push(vec![(None, vec![a.clone()]), (Some(f), ib.clone()), (None, vec![d.clone()])]);
+                    }
+                }
             }
         }
     }
@@ -295,7 +310,7 @@ fn closure_programs(ctx: &Ctx) -> Vec<Vec<S>> {
         DeclX,
     }
     let alpha = [A::DefF, A::DefM, A::Set, A::SetG, A::CallF, A::CallM, A::ProbeX, A::DeclX];
-    let maxlen = ctx.pick(4, 5);
+    let maxlen = ctx.pick(5, 6);
     let mut seqs: Vec<Vec<A>> = vec![vec![]];
     let mut all: Vec<Vec<A>> = Vec::new();
     for _ in 0..maxlen {
@@ -516,10 +531,7 @@ fn callable_programs(ctx: &Ctx) -> Vec<Vec<S>> {
     let quick = ctx.quick();
     for (pi, p) in plists.iter().enumerate() {
         for (ci, c) in calls.iter().enumerate() {
-            if quick && (pi * 7 + ci) % 3 != 0 && p.params.len() == 3 {
-                // quick tier: every parameter list of arity <= 2 with every call, a third of arity 3
-                continue;
-            }
+            let _ = (quick, pi, ci);
             let mut body: Vec<S> = p.params.iter().map(|q| S::Probe(v(&q.name))).collect();
             if let Some(r) = &p.rest {
                 body.push(S::Probe(v(r)));
@@ -649,9 +661,9 @@ fn run_space(ctx: &Ctx, sub: &'static str, progs: &[Vec<S>], bound: &str) {
 
 pub fn run(ctx: &Ctx) {
     let sp = scoping_programs(ctx);
-    run_space(ctx, "scoping", &sp, "10 frame kinds (rule, @if at root, @else, @each, @for, @while, mixin defined here / at root, function, content block) x bodies of <= 2 statements from an 8-statement alphabet with one nested frame x 4 placements; probes of $x and $y after every program");
+    run_space(ctx, "scoping", &sp, "10 frame kinds (rule, @if at root, @else, @each, @for, @while, mixin defined here / at root, function, content block) x bodies of <= 2 (thorough 3) statements from an 8-statement alphabet with one nested frame holding <= 2 statements before / after (thorough: between) x 4 placements; probes of $x and $y after every program");
     let clp = closure_programs(ctx);
-    run_space(ctx, "closures", &clp, "every sequence of <= 4 (thorough 5) steps over {define a function / a mixin reading $x, assign $x, assign $x !global, call, include, probe} with calls after their definitions, at the root, in a style rule, in a nested style rule with a shadowing local, (definition-free sequences) in a mixin body and in @if");
+    run_space(ctx, "closures", &clp, "every sequence of <= 5 (thorough 6) steps over {define a function / a mixin reading $x, assign $x, assign $x !global, call, include, probe} with calls after their definitions, at the root, in a style rule, in a nested style rule with a shadowing local, (definition-free sequences) in a mixin body and in @if");
     let cp = control_programs();
     run_space(ctx, "control-flow", &cp, "@for over from,to in -2..3 x {to, through} (plain and with @return from the loop); @each over 7 list/map shapes x 1-3 variables; @while countdowns and @return through nested loops; @if/@else if/@else over 10x10 truthiness classes");
     let kp = callable_programs(ctx);
